@@ -2,6 +2,7 @@ package varutil
 
 import (
 	"math/rand"
+	"sync"
 	"time"
 )
 
@@ -29,16 +30,24 @@ const (
 )
 
 var (
-	src = rand.NewSource(time.Now().UnixNano())
+	src   = rand.NewSource(time.Now().UnixNano())
+	srcMu sync.Mutex
 )
+
+// int63 draws from the shared source, which is not safe for concurrent use on its own
+func int63() int64 {
+	srcMu.Lock()
+	defer srcMu.Unlock()
+	return src.Int63()
+}
 
 // RandString create new random string
 func RandString(n int, pool string) string {
 	b := make([]byte, n)
 	// A src.Int63() generates 63 random bits, enough for letterIdxMax characters!
-	for i, cache, remain := n-1, src.Int63(), letterIdxMax; i >= 0; {
+	for i, cache, remain := n-1, int63(), letterIdxMax; i >= 0; {
 		if remain == 0 {
-			cache, remain = src.Int63(), letterIdxMax
+			cache, remain = int63(), letterIdxMax
 		}
 		if idx := int(cache & letterIdxMask); idx < len(pool) {
 			b[i] = pool[idx]
